@@ -1,5 +1,7 @@
 /- Helper lemmas for the work-tree model (C18).  Property theorems live in Props/C18.lean. -/
 import DulwichModel.Model.WorkTree
+set_option linter.unusedSimpArgs false
+
 namespace Dulwich.WorkTree
 open Dulwich
 
@@ -128,6 +130,8 @@ instance (w : World) : Decidable (LinkLookupHarmless w) := by unfold LinkLookupH
 
 /-! ### status -/
 
+theorem cur_flags : cur = ⟨true, true, true, true, true, false, false, false, true⟩ := rfl
+
 theorem statMatches_self (s : StatKey) : statMatches s s = true := by
   simp [statMatches]
 
@@ -164,34 +168,47 @@ theorem lstatView_file_get {wd : FMap WFile} {p : Path} {f : WFile} (h : lstatVi
       · rename_i g hg; cases h; exact hg
       · split at h <;> cases h
 
-theorem contentDiffers_eq (f : WFile) (e : IEntry) : contentDiffers f e = (f.cid != e.cid) := by
-  have e1 : Gen.WorkTree.unstagedCmpSha = true := rfl
-  have e2 : Gen.WorkTree.unstagedCmpMode = false := rfl
-  simp [contentDiffers, e1, e2]
-
-/-- Under the two hypotheses about the file at `p`, `_check_entry_for_changes` answers exactly
+/-- Under the racy-git hypothesis about the file at `p`, `_check_entry_for_changes` answers exactly
 "the working directory's entry differs from the index entry". -/
 theorem entryChanged_iff {wd : FMap WFile} {p : Path} {e : IEntry}
-    (hstat : ∀ f, lstatView wd p = .file f → statMatches f.stat e.stat = true → f.cid = e.cid)
-    (hkind : ∀ f, lstatView wd p = .file f → f.cid = e.cid → f.kind = e.kind) :
-    entryChanged wd p e = true ↔ wdEntry wd p ≠ some e.entry := by
+    (hstat : ∀ f, lstatView wd p = .file f → statMatches f.stat e.stat = true → f.cid = e.cid) :
+    entryChanged cur wd p e = true ↔ wdEntry wd p ≠ some e.entry := by
   unfold entryChanged wdEntry
+  rw [cur_flags]
   cases hv : lstatView wd p with
   | enoent => simp
   | enotdir => simp
   | dir => simp
   | file f =>
-    simp only [contentDiffers_eq, ne_eq, Option.some.injEq]
+    simp only [contentDiffers, Bool.true_and, ne_eq, Option.some.injEq]
     have hent : f.entry = e.entry ↔ (f.kind = e.kind ∧ f.cid = e.cid) := by
       simp [WFile.entry, IEntry.entry]
-    by_cases hm : statMatches f.stat e.stat = true
-    · have hc := hstat f hv hm
-      have hk := hkind f hv hc
-      simp [hm, hent, hc, hk]
-    · by_cases hc : f.cid = e.cid
-      · have hk := hkind f hv hc
+    by_cases hk : f.kind = e.kind
+    · by_cases hm : statMatches f.stat e.stat = true
+      · have hc := hstat f hv hm
         simp [hm, hent, hc, hk]
-      · simp [hm, hent, hc]
+      · by_cases hc : f.cid = e.cid
+        · simp [hm, hent, hc, hk]
+        · simp [hm, hent, hc, hk]
+    · simp [hent, hk]
+
+theorem lstatRaisesNotDir_cur (wd : FMap WFile) (p : Path) : lstatRaisesNotDir cur wd p = false := by
+  simp [lstatRaisesNotDir, cur_flags]
+
+theorem unstagedOf_cur (wd : FMap WFile) (index : FMap IEntry) :
+    unstagedOf cur wd index = .ok (index.keys.filter (changedAt cur wd index)) := by
+  unfold unstagedOf
+  have : index.keys.any (lstatRaisesNotDir cur wd) = false := by
+    rw [List.any_eq_false]; intro p _; simp [lstatRaisesNotDir_cur]
+  simp [this]
+
+theorem untrackedAt_cur (wd : FMap WFile) (index : FMap IEntry) (p : Path) :
+    untrackedAt cur wd index p = match lstatView wd p with
+      | .file _ => !index.has p
+      | _ => false := by
+  unfold untrackedAt
+  rw [cur_flags]
+  cases lstatView wd p <;> simp
 
 theorem all_get {α : Type} {m : FMap α} {P : Path → Bool} (h : m.keys.all P = true) {p : Path} {v : α}
     (hp : m.get p = some v) : P p = true :=
@@ -294,8 +311,7 @@ theorem checkedOut_nothing_changed {t : FMap Entry} {obs : Obs} (hall : t.keys.a
     (hwf : TreeWF t) :
     stagedAdd t (checkedOut t obs).index = [] ∧ stagedDel t (checkedOut t obs).index = [] ∧
     stagedMod t (checkedOut t obs).index = [] ∧
-    unstagedOf (checkedOut t obs).wd (checkedOut t obs).index = .ok [] := by
-  have hcatch : Gen.WorkTree.unstagedCatchesNotDir = false := rfl
+    unstagedOf cur (checkedOut t obs).wd (checkedOut t obs).index = .ok [] := by
   have hik := checkedOut_index_keys t obs hall
   refine ⟨?_, ?_, ?_, ?_⟩
   · simp only [stagedAdd, List.filter_eq_nil_iff, hik]
@@ -313,16 +329,7 @@ theorem checkedOut_nothing_changed {t : FMap Entry} {obs : Obs} (hall : t.keys.a
     have : ¬ (entryDiffers e (WFile.ientry ⟨e.kind, e.cid, o.1, o.2⟩) = true) := by
       rw [entryDiffers_iff]; simp [WFile.ientry, IEntry.entry]
     simpa using this
-  · unfold unstagedOf
-    have hnd : (checkedOut t obs).index.keys.any (lstatRaisesNotDir (checkedOut t obs).wd) = false := by
-      rw [List.any_eq_false, hik]
-      intro p hp
-      obtain ⟨e, o, _, _, hv, _⟩ := checkedOut_view hall hwf hp
-      have hanc : hasFileAncestor (checkoutFiles t obs) p = false := by
-        rw [hasFileAncestor_keys (checkoutFiles_keys t obs hall)]
-        simpa using (List.all_eq_true.mp hwf) p hp
-      simp [lstatRaisesNotDir, hcatch, checkedOut, blocked_imp_anc hanc]
-    simp only [hnd, Bool.false_eq_true, if_false]
+  · rw [unstagedOf_cur]
     congr 1
     rw [List.filter_eq_nil_iff, hik]
     intro p hp
@@ -632,8 +639,7 @@ theorem Synced.view {w : World} (h : Synced w) {p : Path} {f : WFile} (hg : w.wd
 
 theorem Synced.nothing_changed {w : World} (h : Synced w) :
     stagedAdd w.head w.index = [] ∧ stagedDel w.head w.index = [] ∧ stagedMod w.head w.index = [] ∧
-    unstagedOf w.wd w.index = .ok [] := by
-  have hcatch : Gen.WorkTree.unstagedCatchesNotDir = false := rfl
+    unstagedOf cur w.wd w.index = .ok [] ∧ untrackedOf cur w.wd w.index = [] := by
   have key : ∀ p, p ∈ w.index.keys → ∃ f, w.wd.get p = some f ∧ w.index.get p = some f.ientry ∧
       w.head.get p = some f.entry := by
     intro p hp
@@ -642,7 +648,7 @@ theorem Synced.nothing_changed {w : World} (h : Synced w) :
     cases hw : w.wd.get p with
     | none => rw [hw, he] at hi; cases hi
     | some f => exact ⟨f, rfl, by rw [hi, hw]; rfl, by rw [h.head p, hw]; rfl⟩
-  refine ⟨?_, ?_, ?_, ?_⟩
+  refine ⟨?_, ?_, ?_, ?_, ?_⟩
   · simp only [stagedAdd, List.filter_eq_nil_iff]
     intro p hp
     obtain ⟨f, _, _, hh⟩ := key p hp
@@ -666,24 +672,23 @@ theorem Synced.nothing_changed {w : World} (h : Synced w) :
       have : ¬ (entryDiffers f.entry f.ientry = true) := by
         rw [entryDiffers_iff]; simp [WFile.ientry, IEntry.entry, WFile.entry]
       simpa using this
-  · unfold unstagedOf
-    have hnd : w.index.keys.any (lstatRaisesNotDir w.wd) = false := by
-      rw [List.any_eq_false]
-      intro p hp
-      obtain ⟨f, hw, _, _⟩ := key p hp
-      simp [lstatRaisesNotDir, hcatch, blocked_imp_anc (h.flat p (FMap.mem_keys_of_get hw))]
-    simp only [hnd, Bool.false_eq_true, if_false]
+  · rw [unstagedOf_cur]
     congr 1
     rw [List.filter_eq_nil_iff]
     intro p hp
     obtain ⟨f, hw, hi, _⟩ := key p hp
     simp [changedAt, hi, entryChanged, h.view hw, WFile.ientry, statMatches_self]
+  · simp only [untrackedOf, List.filter_eq_nil_iff]
+    intro p hp
+    obtain ⟨f, hf⟩ := FMap.get_of_mem_keys hp
+    rw [untrackedAt_cur, h.view hf]
+    simp [FMap.has, h.idx p, hf]
 
-theorem Synced.status {w : World} (h : Synced w) :
-    status w = .ok ⟨[], [], [], [], untrackedOf w.wd w.index⟩ := by
-  obtain ⟨ha, hd, hm, hu⟩ := h.nothing_changed
+/-- In a synced world status is clean. -/
+theorem Synced.status {w : World} (h : Synced w) : status cur w = .ok ⟨[], [], [], [], []⟩ := by
+  obtain ⟨ha, hd, hm, hu, hut⟩ := h.nothing_changed
   unfold WorkTree.status
-  rw [hu, ha, hd, hm]
+  rw [hu, ha, hd, hm, hut]
   rfl
 
 theorem Synced.wdEntry {w : World} (h : Synced w) (p : Path) : wdEntry w.wd p = w.head.get p := by
@@ -704,7 +709,6 @@ theorem Synced.treeOf {w : World} (h : Synced w) (p : Path) : (treeOf w.index).g
   rw [FMap.get_mapVal _ (fun _ (v : IEntry) => v.entry) p, h.idx p, h.head p]
   cases w.wd.get p <;> rfl
 
-
 theorem checkedOut_synced {t : FMap Entry} {obs : Obs} (hobs : t.keys.all obs.has = true) (hwf : TreeWF t) :
     Synced (checkedOut t obs) := by
   refine ⟨fun p => checkedOut_index_get t obs p, ?_, ?_⟩
@@ -723,7 +727,8 @@ theorem checkedOut_synced {t : FMap Entry} {obs : Obs} (hobs : t.keys.all obs.ha
     rw [hasFileAncestor_keys (checkoutFiles_keys t obs hobs)]
     simpa using (List.all_eq_true.mp hwf) p hp'
 
-theorem checkUncommitted_synced {w : World} (h : Synced w) (b : FMap Entry) : checkUncommitted w b = .ok () := by
+theorem checkUncommitted_synced {w : World} (h : Synced w) (b : FMap Entry) :
+    checkUncommitted cur w b = .ok () := by
   unfold checkUncommitted
   rw [h.status]
   rfl
@@ -756,87 +761,32 @@ theorem preCheckModified_synced {w : World} (h : Synced w) (b : FMap Entry) :
   | modify p x y => exact chk p x (h3 p x y rfl)
   | delete p old => exact chk p old (h2 p old rfl)
 
+/-- In a synced world a file that is to become a directory still is what HEAD says: the "paths
+becoming directories" check passes. -/
+theorem preCheckDirs_synced {w : World} (h : Synced w) (b : FMap Entry) :
+    preCheckDirs w.wd (changes w.head b) = .ok () := by
+  unfold preCheckDirs
+  apply foldl_ok
+  intro ch hch
+  obtain ⟨_, h2, _⟩ := changes_mem hch
+  cases ch with
+  | add p e => rfl
+  | modify p x y => rfl
+  | delete p old =>
+    have hold : w.head.get p = some old := h2 p old rfl
+    have hh := h.head p
+    rw [hold] at hh
+    cases hw : w.wd.get p with
+    | none => rw [hw] at hh; cases hh
+    | some f =>
+      rw [hw] at hh
+      have hfe : f.entry = old := (Option.some.inj hh).symm
+      have hm : fileMatches f old = true := by
+        rw [← hfe]; simp [fileMatches, WFile.entry]
+      simp only [h.view hw, hm]
+      split <;> simp
 
-/-! ### the walk order is a strict total order in which a directory precedes what is below it -/
-
-theorem keyLt_irrefl : ∀ a : List Nat, keyLt a a = false
-  | [] => rfl
-  | x :: r => by simp [keyLt, keyLt_irrefl r]
-
-theorem keyLt_trans : ∀ {a b c : List Nat}, keyLt a b = true → keyLt b c = true → keyLt a c = true
-  | [], [], _, h, _ => by simp [keyLt] at h
-  | [], _ :: _, [], _, h => by simp [keyLt] at h
-  | [], _ :: _, _ :: _, _, _ => by simp [keyLt]
-  | _ :: _, [], _, h, _ => by simp [keyLt] at h
-  | _ :: _, _ :: _, [], _, h => by simp [keyLt] at h
-  | x :: a, y :: b, z :: c, h1, h2 => by
-    simp only [keyLt, Bool.or_eq_true, decide_eq_true_eq, Bool.and_eq_true, beq_iff_eq] at h1 h2 ⊢
-    rcases h1 with h1 | ⟨e1, h1⟩ <;> rcases h2 with h2 | ⟨e2, h2⟩
-    · left; omega
-    · left; omega
-    · left; omega
-    · right; exact ⟨by omega, keyLt_trans h1 h2⟩
-
-theorem keyLt_total : ∀ (a b : List Nat), keyLt a b = true ∨ a = b ∨ keyLt b a = true
-  | [], [] => Or.inr (Or.inl rfl)
-  | [], _ :: _ => Or.inl (by simp [keyLt])
-  | _ :: _, [] => Or.inr (Or.inr (by simp [keyLt]))
-  | x :: a, y :: b => by
-    simp only [keyLt, Bool.or_eq_true, decide_eq_true_eq, Bool.and_eq_true, beq_iff_eq, List.cons.injEq]
-    rcases Nat.lt_trichotomy x y with h | h | h
-    · left; left; exact h
-    · rcases keyLt_total a b with h' | h' | h'
-      · left; right; exact ⟨h, h'⟩
-      · right; left; exact ⟨h, h'⟩
-      · right; right; right; exact ⟨h.symm, h'⟩
-    · right; right; left; exact h
-
-theorem pathKey_inj : ∀ {p q : Path}, pathKey p = pathKey q → p = q
-  | [], [], _ => rfl
-  | [], _ :: _, h => by simp [pathKey] at h
-  | _ :: _, [], h => by simp [pathKey] at h
-  | x :: p, y :: q, h => by
-    simp only [pathKey, List.map_cons, List.cons.injEq] at h
-    obtain ⟨h1, h2⟩ := h
-    have := @pathKey_inj p q h2
-    subst this
-    congr 1
-    by_cases hx : x = slash <;> by_cases hy : y = slash <;> simp only [hx, hy, if_true, if_false] at h1
-    · rw [hx, hy]
-    · omega
-    · omega
-    · exact UInt8.toNat_inj.mp (by omega)
-
-theorem pathLt_irrefl (p : Path) : pathLt p p = false := keyLt_irrefl _
-
-theorem pathLt_trans {p q r : Path} (h1 : pathLt p q = true) (h2 : pathLt q r = true) : pathLt p r = true :=
-  keyLt_trans h1 h2
-
-theorem pathLt_total (p q : Path) : pathLt p q = true ∨ p = q ∨ pathLt q p = true := by
-  rcases keyLt_total (pathKey p) (pathKey q) with h | h | h
-  · exact Or.inl h
-  · exact Or.inr (Or.inl (pathKey_inj h))
-  · exact Or.inr (Or.inr h)
-
-theorem pathLt_asymm {p q : Path} (h : pathLt p q = true) : pathLt q p = false := by
-  cases h' : pathLt q p with
-  | false => rfl
-  | true => have := pathLt_trans h h'; rw [pathLt_irrefl] at this; cases this
-
-/-- a proper prefix sorts first -/
-theorem keyLt_append : ∀ (a : List Nat) (x : Nat) (r : List Nat), keyLt a (a ++ x :: r) = true
-  | [], _, _ => by simp [keyLt]
-  | y :: a, x, r => by simp [keyLt, keyLt_append a x r]
-
-theorem isAncestor_pathLt {a p : Path} (h : isAncestor a p = true) : pathLt a p = true := by
-  unfold isAncestor at h
-  rw [List.isPrefixOf_iff_prefix] at h
-  obtain ⟨t, ht⟩ := h
-  unfold pathLt
-  rw [← ht]
-  simp only [pathKey, List.map_append, List.map_cons, List.append_assoc, List.cons_append, List.nil_append]
-  exact keyLt_append _ _ _
-
+/-! ### views through `get` -/
 
 theorem hasFileAncestor_false_iff {α : Type} (m : FMap α) (p : Path) :
     hasFileAncestor m p = false ↔ ∀ k, isAncestor k p = true → m.get k = none := by
@@ -883,223 +833,270 @@ theorem isAncestor_ne {k p : Path} (h : isAncestor k p = true) : k ≠ p := by
   have := congrArg List.length ht
   simp at this
 
-/-- Processing the changes at one path, from the state a clean checkout of `a` left there, when
-nothing lies above `p` in the directory and — if something is to be written — nothing below. -/
-theorem applyChangesAt' {a b : FMap Entry} {fA : FMap WFile} {obs : Obs} {s : WT} {p : Path}
-    (hanc : hasFileAncestor s.wd p = false)
-    (hdesc : ∀ y, b.get p = some y → hasDescendant s.wd p = false)
-    (hva : ∀ x, a.get p = some x → validPath p = true) (hvb : ∀ y, b.get p = some y → validPath p = true)
-    (hobs : ∀ y, b.get p = some y → ∃ o, obs.get p = some o)
-    (hfA0 : a.get p = none → fA.get p = none)
-    (hfA1 : ∀ x, a.get p = some x → ∃ f, fA.get p = some f ∧ f.entry = x)
-    (hwd : s.wd.get p = fA.get p) (hidx : s.index.get p = (fA.get p).map WFile.ientry) :
-    ∃ s', applyChanges obs s (changesAt a b p) = (s', none) ∧
-      s'.wd.get p = targetWd a b fA obs p ∧
-      s'.index.get p = (targetWd a b fA obs p).map WFile.ientry ∧
-      ∀ q, q ≠ p → s'.wd.get q = s.wd.get q ∧ s'.index.get q = s.index.get q := by
-  have hlink := linkAnc_of_anc hanc
-  have view_none : ∀ {wd : FMap WFile}, hasFileAncestor wd p = false → hasDescendant wd p = false →
-      wd.get p = none → lstatView wd p = .enoent := by
-    intro wd h1 h2 h3
-    rw [lstatView_noAnc_none h1 h3, h2]; rfl
-  have erased : (FMap.erase s.wd p).get p = none ∧ (FMap.erase s.index p).get p = none ∧
-      ∀ q, q ≠ p → (FMap.erase s.wd p).get q = s.wd.get q ∧ (FMap.erase s.index p).get q = s.index.get q :=
-    ⟨FMap.get_erase_same _ _, FMap.get_erase_same _ _,
-      fun q hq => ⟨FMap.get_erase_ne _ hq, FMap.get_erase_ne _ hq⟩⟩
-  have written : ∀ (wd0 : FMap WFile) (ix0 : FMap IEntry) (f : WFile),
-      (wd0.put p f).get p = some f ∧ (ix0.put p f.ientry).get p = some f.ientry ∧
-      ∀ q, q ≠ p → (wd0.put p f).get q = wd0.get q ∧ (ix0.put p f.ientry).get q = ix0.get q :=
-    fun wd0 ix0 f => ⟨FMap.get_put_same _ _ _, FMap.get_put_same _ _ _,
-      fun q hq => ⟨FMap.get_put_ne _ _ hq, FMap.get_put_ne _ _ hq⟩⟩
-  unfold changesAt targetWd
-  cases ha : a.get p with
-  | none =>
-    have hn : s.wd.get p = none := by rw [hwd, hfA0 ha]
-    cases hb : b.get p with
-    | none =>
-      refine ⟨s, rfl, ?_, ?_, fun q _ => ⟨rfl, rfl⟩⟩
-      · simp [hn]
-      · simp [hidx, hfA0 ha]
-    | some y =>
-      obtain ⟨o, ho⟩ := hobs y hb
-      have hstep := @transitionToFile_absent obs s p y o (hvb y hb) hlink (view_none hanc (hdesc y hb) hn) ho
-      obtain ⟨w2, w3, w4⟩ := written s.wd s.index (fileOf y o)
-      refine ⟨_, applyChanges_one (c := .add p y) hstep, ?_, ?_, w4⟩
-      · simp [w2, ho]
-      · simp [w3, ho]
-  | some x =>
-    obtain ⟨f, hf, hfx⟩ := hfA1 x ha
-    have hg : s.wd.get p = some f := by rw [hwd, hf]
-    have hview := lstatView_noAnc_some hanc hg
-    have hdel := @transitionToAbsent_file s p f (hva x ha) hview
-    obtain ⟨e2, e3, e4⟩ := erased
-    cases hb : b.get p with
-    | none =>
-      refine ⟨_, applyChanges_one (c := .delete p x) hdel, ?_, ?_, e4⟩
-      · simp [e2]
-      · simp [e3]
-    | some y =>
-      obtain ⟨o, ho⟩ := hobs y hb
-      by_cases hxy : x = y
-      · subst hxy
-        refine ⟨s, by simp [applyChanges], ?_, ?_, fun q _ => ⟨rfl, rfl⟩⟩
-        · simp [hwd]
-        · simp [hidx]
-      · have hne : ¬ (some x = some y) := fun e => hxy (Option.some.inj e)
-        simp only [hxy, if_false, hne]
-        by_cases hlk : isLink x.kind = isLink y.kind
-        · have hfk : isLink f.kind = isLink y.kind := by rw [← hlk, ← hfx]; rfl
-          have hstep := @transitionToFile_differs obs s p y o f (hvb y hb) hlink hview
-            (by rw [hfx]; exact hxy) hfk ho
-          obtain ⟨w2, w3, w4⟩ := written s.wd s.index (fileOf y o)
-          refine ⟨_, by simpa [hlk] using applyChanges_one (c := .modify p x y) hstep, ?_, ?_, w4⟩
-          · simp [w2, ho]
-          · simp [w3, ho]
-        · have hanc1 : hasFileAncestor (FMap.erase s.wd p) p = false := by
-            rw [hasFileAncestor_false_iff] at hanc ⊢
-            intro k hk
-            rw [FMap.get_erase_ne _ (isAncestor_ne hk)]
-            exact hanc k hk
-          have hdesc1 : hasDescendant (FMap.erase s.wd p) p = false := by
-            have := hdesc y hb
-            rw [hasDescendant_false_iff] at this ⊢
-            intro k hk
-            rw [FMap.get_erase_ne _ (isAncestor_ne hk).symm]
-            exact this k hk
-          have hstep := @transitionToFile_absent obs ⟨s.wd.erase p, s.index.erase p⟩ p y o (hvb y hb)
-            (linkAnc_of_anc hanc1) (view_none hanc1 hdesc1 e2) ho
-          obtain ⟨w2, w3, w4⟩ := written (s.wd.erase p) (s.index.erase p) (fileOf y o)
-          have hlk' : (isLink x.kind != isLink y.kind) = true := by simpa using hlk
-          refine ⟨_, by simpa [hlk'] using applyChanges_two (c := .delete p x) (d := .add p y) hdel hstep,
-            ?_, ?_, ?_⟩
-          · simp [w2, ho]
-          · simp [w3, ho]
-          · intro q hq
-            exact ⟨(w4 q hq).1.trans (e4 q hq).1, (w4 q hq).2.trans (e4 q hq).2⟩
-
-
-/-! ### the list of changed paths is strictly sorted -/
-
-def SortedP (l : List Path) : Prop := l.Pairwise (fun x y => pathLt x y = true)
-
-theorem sorted_insertPath {p : Path} {l : List Path} (hl : SortedP l) : SortedP (insertPath p l) := by
-  induction l with
-  | nil => simp [insertPath, SortedP]
-  | cons q r ih =>
-    unfold SortedP at hl ih ⊢
-    rw [List.pairwise_cons] at hl
-    unfold insertPath
-    split
-    · exact List.pairwise_cons.mpr hl
-    · rename_i hpq
-      split
-      · rename_i hlt
-        rw [List.pairwise_cons]
-        refine ⟨?_, List.pairwise_cons.mpr hl⟩
-        intro y hy
-        rcases List.mem_cons.mp hy with e | e
-        · rw [e]; exact hlt
-        · exact pathLt_trans hlt (hl.1 y e)
-      · rename_i hnlt
-        rw [List.pairwise_cons]
-        refine ⟨?_, ih hl.2⟩
-        intro y hy
-        rcases (mem_insertPath p y r).mp hy with e | e
-        · rw [e]
-          rcases pathLt_total p q with h | h | h
-          · exact absurd h hnlt
-          · exact absurd h hpq
-          · exact h
-        · exact hl.1 y e
-
-theorem sorted_sortPaths (l : List Path) : SortedP (sortPaths l) := by
-  induction l with
-  | nil => simp [sortPaths, SortedP]
-  | cons x r ih =>
-    have : sortPaths (x :: r) = insertPath x (sortPaths r) := rfl
-    rw [this]; exact sorted_insertPath ih
-
-theorem sorted_changedPathOrder (a b : FMap Entry) : SortedP (changedPathOrder a b) := sorted_sortPaths _
-
-/-- No path of `b` has paths of `a` below it: no directory of `a` becomes a file. -/
-def NoDirToFile (a b : FMap Entry) : Prop := b.keys.all (fun p => !hasDescendant a p) = true
-
-instance (a b : FMap Entry) : Decidable (NoDirToFile a b) := by unfold NoDirToFile; infer_instance
-
 theorem TreeWF.apply {t : FMap Entry} (h : TreeWF t) {k p : Path} {e : Entry} (hp : t.get p = some e)
     (hk : isAncestor k p = true) : t.get k = none := by
   have := (List.all_eq_true.mp h) p (FMap.mem_keys_of_get hp)
   simp only [Bool.not_eq_eq_eq_not, Bool.not_true] at this
   exact (hasFileAncestor_false_iff t p).mp this k hk
 
-theorem NoDirToFile.apply {a b : FMap Entry} (h : NoDirToFile a b) {p k : Path} {e : Entry}
-    (hp : b.get p = some e) (hk : isAncestor p k = true) : a.get k = none := by
-  have := (List.all_eq_true.mp h) p (FMap.mem_keys_of_get hp)
-  simp only [Bool.not_eq_eq_eq_not, Bool.not_true] at this
-  exact (hasDescendant_false_iff a p).mp this k hk
 
-/-- Processing the changes at every path of a strictly sorted list: the paths still to come are in the
-state the clean checkout of `a` left, all others are already in their target state. -/
-theorem applyChanges_sorted {a b : FMap Entry} {fA : FMap WFile} {obs : Obs}
-    (hwfb : TreeWF b) (hndf : NoDirToFile a b)
-    (hva : ∀ p x, a.get p = some x → validPath p = true) (hvb : ∀ p y, b.get p = some y → validPath p = true)
+/-! ### the switch: all deletions, then all writes -/
+
+@[simp] theorem isDelete_delete (p : Path) (x : Entry) : (Change.delete p x).isDelete = true := rfl
+@[simp] theorem isDelete_add (p : Path) (x : Entry) : (Change.add p x).isDelete = false := rfl
+@[simp] theorem isDelete_modify (p : Path) (x y : Entry) : (Change.modify p x y).isDelete = false := rfl
+
+/-- The deletions among the changes at `p`. -/
+def delsAt (a b : FMap Entry) (p : Path) : List Change := (changesAt a b p).filter Change.isDelete
+
+/-- The writes among the changes at `p`. -/
+def addsAt (a b : FMap Entry) (p : Path) : List Change := (changesAt a b p).filter (fun c => !c.isDelete)
+
+/-- `p` is deleted in the first phase: gone from `b`, or of a different file type there. -/
+def delP (a b : FMap Entry) (p : Path) : Bool :=
+  match a.get p, b.get p with
+  | some _, none => true
+  | some x, some y => decide (x ≠ y) && (isLink x.kind != isLink y.kind)
+  | _, _ => false
+
+theorem applyOrder_cur (a b : FMap Entry) :
+    applyOrder cur (changes a b) =
+      (changedPathOrder a b).flatMap (delsAt a b) ++ (changedPathOrder a b).flatMap (addsAt a b) := by
+  have : cur.deletesFirst = true := rfl
+  simp only [applyOrder, this, if_true, changes, List.filter_flatMap]
+  rfl
+
+/-- First phase at one path, from the state the clean checkout of `a` left there. -/
+theorem applyDelsAt {a b : FMap Entry} {fA : FMap WFile} {obs : Obs} {s : WT} {p : Path}
+    (hanc : ∀ x, a.get p = some x → hasFileAncestor s.wd p = false)
+    (hva : ∀ x, a.get p = some x → validPath p = true)
+    (hfA1 : ∀ x, a.get p = some x → ∃ f, fA.get p = some f ∧ f.entry = x)
+    (hwd : s.wd.get p = fA.get p) (hidx : s.index.get p = (fA.get p).map WFile.ientry) :
+    ∃ s', applyChanges obs s (delsAt a b p) = (s', none) ∧
+      s'.wd.get p = (if delP a b p then none else fA.get p) ∧
+      s'.index.get p = (if delP a b p then none else (fA.get p).map WFile.ientry) ∧
+      ∀ q, q ≠ p → s'.wd.get q = s.wd.get q ∧ s'.index.get q = s.index.get q := by
+  have stay : delsAt a b p = [] → delP a b p = false →
+      ∃ s', applyChanges obs s (delsAt a b p) = (s', none) ∧
+      s'.wd.get p = (if delP a b p then none else fA.get p) ∧
+      s'.index.get p = (if delP a b p then none else (fA.get p).map WFile.ientry) ∧
+      ∀ q, q ≠ p → s'.wd.get q = s.wd.get q ∧ s'.index.get q = s.index.get q := by
+    intro h1 h2
+    exact ⟨s, by rw [h1]; rfl, by simp [h2, hwd], by simp [h2, hidx], fun q _ => ⟨rfl, rfl⟩⟩
+  have go : ∀ x, a.get p = some x → delsAt a b p = [.delete p x] → delP a b p = true →
+      ∃ s', applyChanges obs s (delsAt a b p) = (s', none) ∧
+      s'.wd.get p = (if delP a b p then none else fA.get p) ∧
+      s'.index.get p = (if delP a b p then none else (fA.get p).map WFile.ientry) ∧
+      ∀ q, q ≠ p → s'.wd.get q = s.wd.get q ∧ s'.index.get q = s.index.get q := by
+    intro x ha h1 h2
+    obtain ⟨f, hf, _⟩ := hfA1 x ha
+    have hg : s.wd.get p = some f := by rw [hwd, hf]
+    have hdel := @transitionToAbsent_file s p f (hva x ha) (lstatView_noAnc_some (hanc x ha) hg)
+    refine ⟨_, by rw [h1]; exact applyChanges_one (c := .delete p x) hdel, ?_, ?_, ?_⟩
+    · simp [h2, FMap.get_erase_same]
+    · simp [h2, FMap.get_erase_same]
+    · intro q hq; exact ⟨FMap.get_erase_ne _ hq, FMap.get_erase_ne _ hq⟩
+  cases ha : a.get p with
+  | none => exact stay (by simp only [delsAt, changesAt, ha]; cases b.get p <;> simp [List.filter_cons]) (by simp [delP, ha])
+  | some x =>
+    cases hb : b.get p with
+    | none => exact go x ha (by simp [List.filter_cons, delsAt, changesAt, ha, hb]) (by simp [delP, ha, hb])
+    | some y =>
+      by_cases hxy : x = y
+      · exact stay (by simp [List.filter_cons, delsAt, changesAt, ha, hb, hxy]) (by simp [delP, ha, hb, hxy])
+      · by_cases hlk : isLink x.kind = isLink y.kind
+        · exact stay (by simp [List.filter_cons, delsAt, changesAt, ha, hb, hxy, hlk])
+            (by simp [delP, ha, hb, hlk])
+        · have hlk' : (isLink x.kind != isLink y.kind) = true := by simpa using hlk
+          exact go x ha (by simp [List.filter_cons, delsAt, changesAt, ha, hb, hxy, hlk'])
+            (by simp [delP, ha, hb, hxy, hlk'])
+
+/-- First phase over a duplicate-free list of paths. -/
+theorem applyDels {a b : FMap Entry} {fA : FMap WFile} {obs : Obs} (hwfa : TreeWF a)
+    (hva : ∀ p x, a.get p = some x → validPath p = true)
+    (hfA0 : ∀ p, a.get p = none → fA.get p = none)
+    (hfA1 : ∀ p x, a.get p = some x → ∃ f, fA.get p = some f ∧ f.entry = x)
+    (L : List Path) (hL : L.Nodup) (s : WT)
+    (hsub : ∀ k, s.wd.get k = none ∨ s.wd.get k = fA.get k)
+    (hA : ∀ p ∈ L, s.wd.get p = fA.get p ∧ s.index.get p = (fA.get p).map WFile.ientry) :
+    ∃ s', applyChanges obs s (L.flatMap (delsAt a b)) = (s', none) ∧
+      (∀ p ∈ L, s'.wd.get p = (if delP a b p then none else fA.get p) ∧
+        s'.index.get p = (if delP a b p then none else (fA.get p).map WFile.ientry)) ∧
+      (∀ q, q ∉ L → s'.wd.get q = s.wd.get q ∧ s'.index.get q = s.index.get q) := by
+  induction L generalizing s with
+  | nil => exact ⟨s, rfl, fun _ h => absurd h List.not_mem_nil, fun _ _ => ⟨rfl, rfl⟩⟩
+  | cons p r ih =>
+    rw [List.nodup_cons] at hL
+    have hanc : ∀ x, a.get p = some x → hasFileAncestor s.wd p = false := by
+      intro x hx
+      rw [hasFileAncestor_false_iff]
+      intro k hk
+      rcases hsub k with h | h
+      · exact h
+      · rw [h]; exact hfA0 k (hwfa.apply hx hk)
+    obtain ⟨s1, h1, w1, i1, o1⟩ := applyDelsAt (a := a) (b := b) (fA := fA) (obs := obs) hanc (hva p) (hfA1 p)
+      (hA p List.mem_cons_self).1 (hA p List.mem_cons_self).2
+    have hsub1 : ∀ k, s1.wd.get k = none ∨ s1.wd.get k = fA.get k := by
+      intro k
+      by_cases hkp : k = p
+      · rw [hkp, w1]; split <;> simp
+      · rw [(o1 k hkp).1]; exact hsub k
+    have hA1 : ∀ q ∈ r, s1.wd.get q = fA.get q ∧ s1.index.get q = (fA.get q).map WFile.ientry := by
+      intro q hq
+      have hqp : q ≠ p := fun e => hL.1 (e ▸ hq)
+      rw [(o1 q hqp).1, (o1 q hqp).2]
+      exact hA q (List.mem_cons_of_mem _ hq)
+    obtain ⟨s2, h2, t2, o2⟩ := ih hL.2 s1 hsub1 hA1
+    refine ⟨s2, ?_, ?_, ?_⟩
+    · rw [List.flatMap_cons, applyChanges_append, h1]; exact h2
+    · intro q hq
+      rcases List.mem_cons.mp hq with e | e
+      · subst e
+        rw [(o2 q hL.1).1, (o2 q hL.1).2]
+        exact ⟨w1, i1⟩
+      · exact t2 q e
+    · intro q hq
+      have hqp : q ≠ p := fun e => hq (e ▸ List.mem_cons_self)
+      have hqr : q ∉ r := fun e => hq (List.mem_cons_of_mem _ e)
+      rw [(o2 q hqr).1, (o2 q hqr).2]
+      exact o1 q hqp
+
+/-- Second phase at one path, from the state the first phase left there. -/
+theorem applyAddsAt {a b : FMap Entry} {fA : FMap WFile} {obs : Obs} {s : WT} {p : Path}
+    (hfree : ∀ y, b.get p = some y → hasFileAncestor s.wd p = false ∧ hasDescendant s.wd p = false)
+    (hvb : ∀ y, b.get p = some y → validPath p = true)
+    (hobs : ∀ y, b.get p = some y → ∃ o, obs.get p = some o)
+    (hfA0 : a.get p = none → fA.get p = none)
+    (hfA1 : ∀ x, a.get p = some x → ∃ f, fA.get p = some f ∧ f.entry = x)
+    (hwd : s.wd.get p = (if delP a b p then none else fA.get p))
+    (hidx : s.index.get p = (if delP a b p then none else (fA.get p).map WFile.ientry)) :
+    ∃ s', applyChanges obs s (addsAt a b p) = (s', none) ∧
+      s'.wd.get p = targetWd a b fA obs p ∧
+      s'.index.get p = (targetWd a b fA obs p).map WFile.ientry ∧
+      ∀ q, q ≠ p → s'.wd.get q = s.wd.get q ∧ s'.index.get q = s.index.get q := by
+  have written : ∀ (f : WFile),
+      (s.wd.put p f).get p = some f ∧ (s.index.put p f.ientry).get p = some f.ientry ∧
+      ∀ q, q ≠ p → (s.wd.put p f).get q = s.wd.get q ∧ (s.index.put p f.ientry).get q = s.index.get q :=
+    fun f => ⟨FMap.get_put_same _ _ _, FMap.get_put_same _ _ _,
+      fun q hq => ⟨FMap.get_put_ne _ _ hq, FMap.get_put_ne _ _ hq⟩⟩
+  -- writing into an empty place
+  have fresh : ∀ y, b.get p = some y → a.get p ≠ some y → s.wd.get p = none → addsAt a b p = [.add p y] →
+      ∃ s', applyChanges obs s (addsAt a b p) = (s', none) ∧
+      s'.wd.get p = targetWd a b fA obs p ∧
+      s'.index.get p = (targetWd a b fA obs p).map WFile.ientry ∧
+      ∀ q, q ≠ p → s'.wd.get q = s.wd.get q ∧ s'.index.get q = s.index.get q := by
+    intro y hb hay hn h1
+    obtain ⟨o, ho⟩ := hobs y hb
+    obtain ⟨h_anc, h_desc⟩ := hfree y hb
+    have hview : lstatView s.wd p = .enoent := by
+      rw [lstatView_noAnc_none h_anc hn, h_desc]; rfl
+    have hstep := @transitionToFile_absent obs s p y o (hvb y hb) (linkAnc_of_anc h_anc) hview ho
+    obtain ⟨w2, w3, w4⟩ := written (fileOf y o)
+    refine ⟨_, by rw [h1]; exact applyChanges_one (c := .add p y) hstep, ?_, ?_, w4⟩
+    · simp [targetWd, hb, hay, w2, ho]
+    · simp [targetWd, hb, hay, w3, ho]
+  cases hb : b.get p with
+  | none =>
+    have h1 : addsAt a b p = [] := by
+      simp only [addsAt, changesAt, hb]; cases a.get p <;> simp [List.filter_cons]
+    refine ⟨s, by rw [h1]; rfl, ?_, ?_, fun q _ => ⟨rfl, rfl⟩⟩
+    · rw [hwd]
+      cases ha : a.get p with
+      | none => simp [targetWd, hb, delP, ha, hfA0 ha]
+      | some x => simp [targetWd, hb, delP, ha]
+    · rw [hidx]
+      cases ha : a.get p with
+      | none => simp [targetWd, hb, delP, ha, hfA0 ha]
+      | some x => simp [targetWd, hb, delP, ha]
+  | some y =>
+    cases ha : a.get p with
+    | none =>
+      have hn : s.wd.get p = none := by rw [hwd]; simp [delP, ha, hfA0 ha]
+      exact fresh y hb (by rw [ha]; simp) hn (by simp [List.filter_cons, addsAt, changesAt, ha, hb])
+    | some x =>
+      by_cases hxy : x = y
+      · subst hxy
+        have h1 : addsAt a b p = [] := by simp [List.filter_cons, addsAt, changesAt, ha, hb]
+        have hd : delP a b p = false := by simp [delP, ha, hb]
+        refine ⟨s, by rw [h1]; rfl, ?_, ?_, fun q _ => ⟨rfl, rfl⟩⟩
+        · rw [hwd]; simp [targetWd, hb, ha, hd]
+        · rw [hidx]; simp [targetWd, hb, ha, hd]
+      · have hne : a.get p ≠ some y := by rw [ha]; exact fun e => hxy (Option.some.inj e)
+        by_cases hlk : isLink x.kind = isLink y.kind
+        · -- modify: the old file is still there and does not match
+          have hd : delP a b p = false := by simp [delP, ha, hb, hlk]
+          obtain ⟨f, hf, hfx⟩ := hfA1 x ha
+          have hg : s.wd.get p = some f := by rw [hwd]; simp [hd, hf]
+          obtain ⟨o, ho⟩ := hobs y hb
+          obtain ⟨h_anc, _⟩ := hfree y hb
+          have hview := lstatView_noAnc_some h_anc hg
+          have hfk : isLink f.kind = isLink y.kind := by rw [← hlk, ← hfx]; rfl
+          have hstep := @transitionToFile_differs obs s p y o f (hvb y hb) (linkAnc_of_anc h_anc) hview
+            (by rw [hfx]; exact hxy) hfk ho
+          obtain ⟨w2, w3, w4⟩ := written (fileOf y o)
+          have h1 : addsAt a b p = [.modify p x y] := by
+            simp [List.filter_cons, addsAt, changesAt, ha, hb, hxy, hlk]
+          refine ⟨_, by rw [h1]; exact applyChanges_one (c := .modify p x y) hstep, ?_, ?_, w4⟩
+          · simp [targetWd, hb, hne, w2, ho]
+          · simp [targetWd, hb, hne, w3, ho]
+        · -- type change: the old file was deleted in the first phase
+          have hlk' : (isLink x.kind != isLink y.kind) = true := by simpa using hlk
+          have hd : delP a b p = true := by simp [delP, ha, hb, hxy, hlk']
+          have hn : s.wd.get p = none := by rw [hwd]; simp [hd]
+          exact fresh y hb hne hn (by simp [List.filter_cons, addsAt, changesAt, ha, hb, hxy, hlk'])
+
+/-- Second phase over a duplicate-free list of paths: the paths still to come are in the state the
+first phase left, all others are in their target state. -/
+theorem applyAdds {a b : FMap Entry} {fA : FMap WFile} {obs : Obs} (hwfb : TreeWF b)
+    (hvb : ∀ p y, b.get p = some y → validPath p = true)
     (hobs : ∀ p y, b.get p = some y → ∃ o, obs.get p = some o)
     (hfA0 : ∀ p, a.get p = none → fA.get p = none)
     (hfA1 : ∀ p x, a.get p = some x → ∃ f, fA.get p = some f ∧ f.entry = x)
-    (L : List Path) (hL : SortedP L) (hLK : ∀ p ∈ L, p ∈ a.keys ++ b.keys) (s : WT)
-    (hA : ∀ p ∈ L, s.wd.get p = fA.get p ∧ s.index.get p = (fA.get p).map WFile.ientry)
+    (L : List Path) (hL : L.Nodup) (s : WT)
+    (hM : ∀ p ∈ L, s.wd.get p = (if delP a b p then none else fA.get p) ∧
+      s.index.get p = (if delP a b p then none else (fA.get p).map WFile.ientry))
     (hT : ∀ p, p ∉ L → s.wd.get p = targetWd a b fA obs p ∧
       s.index.get p = (targetWd a b fA obs p).map WFile.ientry) :
-    ∃ s', applyChanges obs s (L.flatMap (changesAt a b)) = (s', none) ∧
+    ∃ s', applyChanges obs s (L.flatMap (addsAt a b)) = (s', none) ∧
       ∀ p, s'.wd.get p = targetWd a b fA obs p ∧
         s'.index.get p = (targetWd a b fA obs p).map WFile.ientry := by
+  -- where `b` has nothing, neither the first-phase state nor the target state has a file
+  have gone : ∀ k, b.get k = none → (if delP a b k then none else fA.get k) = none ∧
+      targetWd a b fA obs k = none := by
+    intro k hk
+    refine ⟨?_, by simp [targetWd, hk]⟩
+    cases ha : a.get k with
+    | none => simp [delP, ha, hfA0 k ha]
+    | some x => simp [delP, ha, hk]
   induction L generalizing s with
   | nil => exact ⟨s, rfl, fun p => hT p List.not_mem_nil⟩
   | cons p r ih =>
-    unfold SortedP at hL
-    rw [List.pairwise_cons] at hL
-    -- nothing of `b` lies above `p`
-    have hbk : ∀ k, isAncestor k p = true → b.get k = none := by
-      intro k hk
-      rcases List.mem_append.mp (hLK p List.mem_cons_self) with hp | hp
-      · obtain ⟨x, hx⟩ := FMap.get_of_mem_keys hp
-        cases hb : b.get k with
-        | none => rfl
-        | some y => rw [hndf.apply hb hk] at hx; cases hx
-      · obtain ⟨y, hy⟩ := FMap.get_of_mem_keys hp
-        exact hwfb.apply hy hk
-    have hnotin : ∀ k, isAncestor k p = true → k ∉ p :: r := by
-      intro k hk hmem
-      rcases List.mem_cons.mp hmem with e | e
-      · exact isAncestor_ne hk e
-      · have h1 := hL.1 k e
-        rw [pathLt_asymm (isAncestor_pathLt hk)] at h1; cases h1
-    have hanc : hasFileAncestor s.wd p = false := by
-      rw [hasFileAncestor_false_iff]
-      intro k hk
-      rw [(hT k (hnotin k hk)).1]
-      simp [targetWd, hbk k hk]
-    have hdesc : ∀ y, b.get p = some y → hasDescendant s.wd p = false := by
-      intro y hy
-      rw [hasDescendant_false_iff]
+    rw [List.nodup_cons] at hL
+    have hnone : ∀ k, b.get k = none → s.wd.get k = none := by
       intro k hk
       by_cases hkL : k ∈ p :: r
-      · rw [(hA k hkL).1]
-        exact hfA0 k (hndf.apply hy hk)
-      · rw [(hT k hkL).1]
-        have : b.get k = none := by
-          cases hb : b.get k with
-          | none => rfl
-          | some z => rw [hwfb.apply hb hk] at hy; cases hy
-        simp [targetWd, this]
-    obtain ⟨s1, h1, w1, i1, o1⟩ := applyChangesAt' (a := a) (b := b) (fA := fA) (obs := obs) hanc hdesc
-      (hva p) (hvb p) (hobs p) (hfA0 p) (hfA1 p) (hA p List.mem_cons_self).1 (hA p List.mem_cons_self).2
-    have hpr : p ∉ r := fun e => by have := hL.1 p e; rw [pathLt_irrefl] at this; cases this
-    have hA1 : ∀ q ∈ r, s1.wd.get q = fA.get q ∧ s1.index.get q = (fA.get q).map WFile.ientry := by
+      · rw [(hM k hkL).1]; exact (gone k hk).1
+      · rw [(hT k hkL).1]; exact (gone k hk).2
+    have hfree : ∀ y, b.get p = some y → hasFileAncestor s.wd p = false ∧ hasDescendant s.wd p = false := by
+      intro y hy
+      constructor
+      · rw [hasFileAncestor_false_iff]
+        intro k hk
+        exact hnone k (hwfb.apply hy hk)
+      · rw [hasDescendant_false_iff]
+        intro k hk
+        apply hnone k
+        cases hb : b.get k with
+        | none => rfl
+        | some z => rw [hwfb.apply hb hk] at hy; cases hy
+    obtain ⟨s1, h1, w1, i1, o1⟩ := applyAddsAt (a := a) (b := b) (fA := fA) (obs := obs) hfree (hvb p) (hobs p)
+      (hfA0 p) (hfA1 p) (hM p List.mem_cons_self).1 (hM p List.mem_cons_self).2
+    have hM1 : ∀ q ∈ r, s1.wd.get q = (if delP a b q then none else fA.get q) ∧
+        s1.index.get q = (if delP a b q then none else (fA.get q).map WFile.ientry) := by
       intro q hq
-      have hqp : q ≠ p := fun e => hpr (e ▸ hq)
+      have hqp : q ≠ p := fun e => hL.1 (e ▸ hq)
       rw [(o1 q hqp).1, (o1 q hqp).2]
-      exact hA q (List.mem_cons_of_mem _ hq)
+      exact hM q (List.mem_cons_of_mem _ hq)
     have hT1 : ∀ q, q ∉ r → s1.wd.get q = targetWd a b fA obs q ∧
         s1.index.get q = (targetWd a b fA obs q).map WFile.ientry := by
       intro q hq
@@ -1107,35 +1104,9 @@ theorem applyChanges_sorted {a b : FMap Entry} {fA : FMap WFile} {obs : Obs}
       · rw [hqp]; exact ⟨w1, i1⟩
       · rw [(o1 q hqp).1, (o1 q hqp).2]
         exact hT q (fun e => by rcases List.mem_cons.mp e with e | e; exact hqp e; exact hq e)
-    obtain ⟨s2, h2, t2⟩ := ih hL.2 (fun q hq => hLK q (List.mem_cons_of_mem _ hq)) s1 hA1 hT1
+    obtain ⟨s2, h2, t2⟩ := ih hL.2 s1 hM1 hT1
     refine ⟨s2, ?_, t2⟩
     rw [List.flatMap_cons, applyChanges_append, h1]
     exact h2
-
-
-/-- In a synced world a file that is to become a directory still is what HEAD says: the "paths
-becoming directories" check passes. -/
-theorem preCheckDirs_synced {w : World} (h : Synced w) (b : FMap Entry) :
-    preCheckDirs w.wd (changes w.head b) = .ok () := by
-  unfold preCheckDirs
-  apply foldl_ok
-  intro ch hch
-  obtain ⟨_, h2, _⟩ := changes_mem hch
-  cases ch with
-  | add p e => rfl
-  | modify p x y => rfl
-  | delete p old =>
-    have hold : w.head.get p = some old := h2 p old rfl
-    have hh := h.head p
-    rw [hold] at hh
-    cases hw : w.wd.get p with
-    | none => rw [hw] at hh; cases hh
-    | some f =>
-      rw [hw] at hh
-      have hfe : f.entry = old := (Option.some.inj hh).symm
-      have hm : fileMatches f old = true := by
-        rw [← hfe]; simp [fileMatches, WFile.entry]
-      simp only [h.view hw, hm]
-      split <;> simp
 
 end Dulwich.WorkTree
